@@ -267,3 +267,79 @@ func VerifC14TaskAPI(v *vrt.T) {
 	}
 	v.Reach("end")
 }
+
+// VerifC14TaskAPITemplates: inductive step of the task API for templated tasks. From any
+// consistent state (tasks a, b each absent, plain or created from template tpl and then
+// associated with it) one create (plain or from the template) / PATCH (new ID and/or
+// template on/unchanged) / delete request: at EVERY point at which the process could stop
+// (after each committed DAO write) every task that carries a template ID is known to that
+// template (so that an update of the template reaches it - the reverse, a dangling
+// association, is harmless), and after the request the associations are exactly the
+// templated tasks.
+func VerifC14TaskAPITemplates(v *vrt.T) {
+	verifRunning = map[string]bool{}
+	verifC14Bodies = nil
+	verifC14Decoders = map[*json.Decoder]int{}
+	faults := &verifFaults{}
+	tasks := &verifTaskDAO{f: faults, tasks: map[string]Task{}}
+	templates := &verifTemplateDAO{f: faults, assoc: map[string]bool{}, tpls: map[string]Template{"tpl": {ID: "tpl", Type: StreamTask, TICKscript: verifC14S1}}}
+	ts := &Service{tasks: tasks, templates: templates, snapshots: verifC14Snapshots{}, diag: verifDiag{}, TaskMasterLookup: &verifLookup{}}
+	ids := []string{"a", "b"}
+	dbrps := []DBRP{{Database: "db", RetentionPolicy: "rp"}}
+	for _, id := range ids {
+		switch v.Choose("state of "+id, 3) {
+		case 1:
+			tasks.tasks[id] = Task{ID: id, Type: StreamTask, TICKscript: verifC14S2, DBRPs: append([]DBRP{}, dbrps...)}
+		case 2:
+			tasks.tasks[id] = Task{ID: id, Type: StreamTask, TICKscript: verifC14S1, TemplateID: "tpl", DBRPs: append([]DBRP{}, dbrps...)}
+			templates.assoc["tpl/"+id] = true
+		}
+	}
+	known := func() bool {
+		ok := true
+		for _, t := range tasks.tasks {
+			if t.TemplateID != "" && !templates.assoc[t.TemplateID+"/"+t.ID] {
+				ok = false
+			}
+		}
+		return ok
+	}
+	crash := func() {
+		v.Assert(known(), "at every possible stop: a task carrying a template ID is associated with that template")
+	}
+	tasks.onWrite, templates.onWrite = crash, crash
+
+	w := &verifC14RW{header: http.Header{}}
+	cd := []client.DBRP{{Database: "db", RetentionPolicy: "rp"}}
+	switch v.Choose("request", 3) {
+	case 0:
+		id := ids[v.Choose("id", 2)]
+		opts := client.CreateTaskOptions{ID: id, Type: client.StreamTask, DBRPs: cd, Status: client.Disabled}
+		if v.Choose("from template", 2) == 1 {
+			opts.TemplateID = "tpl"
+		} else {
+			opts.TICKscript = verifC14S2
+		}
+		ts.handleCreateTask(w, verifC14Request("POST", "", opts))
+	case 1:
+		id := ids[v.Choose("id", 2)]
+		opts := client.UpdateTaskOptions{ID: []string{"", "a", "b"}[v.Choose("new id", 3)]}
+		if v.Choose("set template", 2) == 1 {
+			opts.TemplateID = "tpl"
+		}
+		ts.handleUpdateTask(w, verifC14Request("PATCH", id, opts))
+	default:
+		ts.handleDeleteTask(w, verifC14Request("DELETE", ids[v.Choose("id", 2)], nil))
+	}
+	v.Observe("status", w.status)
+	v.Assert(known(), "after the request every templated task is associated")
+	if w.status >= 200 && w.status < 300 {
+		for key := range templates.assoc {
+			id := key[len("tpl/"):]
+			t, ok := tasks.tasks[id]
+			v.Assert(ok && t.TemplateID == "tpl", "after an accepted request no association is left behind for a task that is not (any more) from the template")
+		}
+		v.Reach("accepted")
+	}
+	v.Reach("end")
+}
